@@ -67,6 +67,8 @@ class Built:
             log.append((kind, name, args, owner))
             if me._raises(name, args):
                 raise me.make_exc(name)
+            if name == "none":
+                return None
             return ("T", name, tuple(args))
 
         call.__name__ = "%s_%s" % (kind, name)
